@@ -31,10 +31,10 @@ def cmdMatch (toks : Toks) : Option String :=
       let (ic, t) := rdCfg rest
       let (o, t) := rdOrd t
       let (deal, t) := tk t; let (lu, t) := tk t; let (ld, t) := tk t; let (vol, t) := tk t; let (lt, t) := tk t
-      let (au, t) := tk t; let (tv, t) := tk t; let (cpi, t) := tk t; let (fee, t) := tk t; let (ct, _) := tk t
+      let (au, t) := tk t; let (tv, t) := tk t; let (cpi, t) := tk t; let (fee, t) := tk t; let (ct, t) := tk t; let (bo, _) := tk t
       let b : MBar := { deal := pOF deal, limitUp := pOF lu, limitDown := pOF ld, volume := pOF vol, listedToday := pB lt }
       let feeFn : Int → Float → Float := fun _ _ => pF fee
-      let out := matchOrder cfg ic o b (pB au) (pI tv) (pF cpi) feeFn (fun _ => pI ct)
+      let out := matchOrderAt (pB bo) cfg ic o b (pB au) (pI tv) (pF cpi) feeFn (fun _ => pI ct)
       let o' := orderAfter o feeFn out
       let outS := match out with
         | .rest => "REST" | .rejected => "REJECTED" | .cancelled => "CANCELLED" | .raises => "RAISES"
